@@ -10,6 +10,7 @@ import (
 	"context"
 	"fmt"
 	"math/rand/v2"
+	"runtime"
 	"slices"
 	"sync"
 	"time"
@@ -30,7 +31,9 @@ func WithActor(ctx context.Context, name string) context.Context {
 type noGateKey struct{}
 
 // WithNoGate marks a context whose operations bypass the gate (no virtual delay before the operation or its reply).
-func WithNoGate(ctx context.Context) context.Context { return context.WithValue(ctx, noGateKey{}, true) }
+func WithNoGate(ctx context.Context) context.Context {
+	return context.WithValue(ctx, noGateKey{}, true)
+}
 
 func noGate(ctx context.Context) bool { b, _ := ctx.Value(noGateKey{}).(bool); return b }
 
@@ -129,6 +132,8 @@ type Proxy struct {
 	Tick     time.Duration
 	// ReplyDelay: every third write additionally delays its reply by 1..MaxDelay ticks.
 	ReplyDelay bool
+	// MergeBatches: aggregated watch batches may be merged with the batches that follow them (see forward).
+	MergeBatches bool
 	// HoldWatch, if set, is called right before a watch is established (no proxy lock held). It models a slow watch
 	// establishment (remote state). It must not sleep on the virtual clock - the runtime establishes watches under its
 	// mutexes, and a mutex wait does not count as idle for synctest - but it may yield (runtime.Gosched) in real time
@@ -143,8 +148,8 @@ type Proxy struct {
 
 	errMu      sync.Mutex
 	deliveries []Delivery
-	injectors  []func(error) // live watch injectors
-	ctxs      []context.Context //nolint:containedctx
+	injectors  []func(error)     // live watch injectors
+	ctxs       []context.Context //nolint:containedctx
 }
 
 // New creates a proxy.
@@ -244,7 +249,11 @@ func (p *Proxy) Len() int { p.mu.Lock(); defer p.mu.Unlock(); return len(p.log) 
 func (p *Proxy) Log() []Commit { p.mu.Lock(); defer p.mu.Unlock(); return slices.Clone(p.log) }
 
 // Watches returns a copy of the watch establishment records.
-func (p *Proxy) Watches() []WatchRec { p.mu.Lock(); defer p.mu.Unlock(); return slices.Clone(p.watches) }
+func (p *Proxy) Watches() []WatchRec {
+	p.mu.Lock()
+	defer p.mu.Unlock()
+	return slices.Clone(p.watches)
+}
 
 // Ops returns the op-order trace.
 func (p *Proxy) Ops() []string { p.mu.Lock(); defer p.mu.Unlock(); return slices.Clone(p.ops) }
@@ -478,7 +487,7 @@ func (p *Proxy) LiveWatches() int {
 	return n
 }
 
-func forward[T any](p *Proxy, ctx context.Context, in <-chan T, out chan<- T, mkErr func(error) T, done func(T)) {
+func forward[T any](p *Proxy, ctx context.Context, in <-chan T, out chan<- T, mkErr func(error) T, done func(T), merge ...func(T, T) T) {
 	injected := make(chan error, 1)
 
 	p.errMu.Lock()
@@ -509,6 +518,26 @@ func forward[T any](p *Proxy, ctx context.Context, in <-chan T, out chan<- T, mk
 			}
 
 			p.gate(ctx, "event")
+
+			// re-batching (aggregated watches, MergeBatches): whatever the inner state has ready by now joins this batch, so batch
+			// boundaries differ from the ones the inner state chose (e.g. the bootstrap batch continues with live events)
+			if len(merge) > 0 && p.MergeBatches {
+				p.mu.Lock()
+				rounds := p.rng.IntN(4)
+				p.mu.Unlock()
+
+			merging:
+				for ; rounds > 0; rounds-- {
+					runtime.Gosched()
+
+					select {
+					case more := <-in:
+						v = merge[0](v, more)
+					default:
+						break merging
+					}
+				}
+			}
 
 			select {
 			case out <- v:
@@ -599,7 +628,8 @@ func (p *Proxy) WatchKindAggregated(ctx context.Context, kind resource.Kind, ch 
 	}
 
 	p.recordWatch(w)
-	forward(p, ctx, in, ch, func(e error) []state.Event { return []state.Event{{Type: state.Errored, Error: e}} }, func(evs []state.Event) { p.delivered(evs...) })
+	forward(p, ctx, in, ch, func(e error) []state.Event { return []state.Event{{Type: state.Errored, Error: e}} }, func(evs []state.Event) { p.delivered(evs...) },
+		func(a, b []state.Event) []state.Event { return append(slices.Clone(a), b...) })
 
 	return nil
 }
